@@ -1,6 +1,9 @@
 package sim
 
-import "sync"
+import (
+	"fmt"
+	"sync"
+)
 
 // Tape is the single source of nondeterminism of a run. In generation mode
 // values come from a splitmix64 PRNG; in replay mode from a recorded list
@@ -13,7 +16,10 @@ type Tape struct {
 	strict bool // replay must match recorded n exactly
 	recN   []uint32
 	recV   []uint32
-	pos    int
+	// KeepLabels records what each draw was for (replay files only)
+	KeepLabels bool
+	recWhat    []string
+	pos        int
 	// Diverged is set in strict mode when a requested n differs from the recorded one.
 	Diverged bool
 	strictN  []uint32
@@ -67,6 +73,9 @@ func (t *Tape) Draw(n int, what string) int {
 	t.pos++
 	t.recN = append(t.recN, uint32(n))
 	t.recV = append(t.recV, uint32(v))
+	if t.KeepLabels {
+		t.recWhat = append(t.recWhat, what)
+	}
 	return v
 }
 
@@ -81,4 +90,21 @@ func (t *Tape) Len() int {
 	t.mu.Lock()
 	defer t.mu.Unlock()
 	return t.pos
+}
+
+// NonZero lists the draws whose value is not the boring default, with labels.
+func (t *Tape) NonZero() []string {
+	t.mu.Lock()
+	defer t.mu.Unlock()
+	var out []string
+	for i, v := range t.recV {
+		if v != 0 {
+			w := ""
+			if i < len(t.recWhat) {
+				w = t.recWhat[i]
+			}
+			out = append(out, fmt.Sprintf("#%d %s = %d of %d", i, w, v, t.recN[i]))
+		}
+	}
+	return out
 }
